@@ -614,11 +614,18 @@ def finishConsumer (c : Consumer) (it : Val) (start : Val) : M Val :=
     let items ← iterItems it
     foldConsumer c items start
 
+/-- PEP 479: the body of a generator expression runs in a generator frame; a `StopIteration` that escapes from it
+(a `next()` on an exhausted generator inside it) reaches the consumer as `RuntimeError("generator raised StopIteration")` -/
+def pep479 {α : Type} (x : M α) : M α := fun s =>
+  match x s with
+  | (.error (.py .stopIteration), s') => (.error (.py .runtimeError), s')
+  | r => r
+
 /-- a generator expression consumed lazily in place by any/all/sum/min/max -/
 def runGen (gensM : (Acc → M (Step Acc)) → Acc → M (Step Acc)) (eltM : M Val) (c : Consumer) (start : Val) : M Val := do
-  let st ← gensM (fun acc => do
+  let st ← pep479 (gensM (fun acc => do
     let v ← eltM
-    liftE (consume c acc v)) (emptyAcc start)
+    liftE (consume c acc v)) (emptyAcc start))
   match st with
   | .more acc | .done acc => finishAcc c acc
 
@@ -795,17 +802,17 @@ def eval (o : Oracles) (ctx : Ctx) : Expr → M Val
     | "next" =>
       (match more with
        | [] => do
-         let st ← evalGens o ctx gens (fun acc => do
+         let st ← pep479 (evalGens o ctx gens (fun acc => do
            let v ← eval o ctx elt
-           liftE (consume .next acc v)) (emptyAcc .none)
+           liftE (consume .next acc v)) (emptyAcc .none))
          match st with
          | .done acc => pure acc.cur
          | .more _ => pyErr .stopIteration
        | [d] => do
          let dv ← eval o ctx d
-         let st ← evalGens o ctx gens (fun acc => do
+         let st ← pep479 (evalGens o ctx gens (fun acc => do
            let v ← eval o ctx elt
-           liftE (consume .next acc v)) (emptyAcc .none)
+           liftE (consume .next acc v)) (emptyAcc .none))
          match st with
          | .done acc => pure acc.cur
          | .more _ => pure dv
